@@ -16,8 +16,14 @@ RULE = ("one case = one byte string written to a file, opened with VolFile in a 
         "once with a fresh object per call (outputs must agree); within a sequence the same call must give the same answer "
         "wherever it stands (a failed call changes nothing); a stream that is delivered must equal the file bytes at the extent "
         "the archive records, which must lie inside the file")
-PROVED = ""
-PARTIAL = ""
+PROVED = ("for ALL byte strings and ALL call sequences: C05_open_no_fault, C05_calls_no_fault, C05_no_fault (the checked primitives copyInto / "
+          "vecIdx never fail: no out-of-bounds copy or vector index; the model is total, so every call returns); C05_open_inv "
+          "(count <= names and entries); C05_history_independent (answers do not depend on the shared reader position); "
+          "C05_failed_call_is_noop (any call, failed or not, leaves every later answer unchanged); C05_stream_exact (a delivered "
+          "stream is exactly file[extent recorded by index entry and block header], extent inside the file); C05_stream_never_short "
+          "(extent not inside the file => ordinary error); the pinned code's defects as theorems (C05_pinned_D6_faults, C05_pinned_D7_faults)")
+PARTIAL = ("real heap layout, allocator behaviour and std::ifstream are outside the model (sanitizer run + C12/C13); the LZH decoder's "
+           "behaviour on hostile data is C04's; attacker-sized allocations are canonicalised to err:alloc")
 TRUSTED = ["std::ifstream (seek past the end succeeds, short read sets failbit) as used by FileReader — C12/C13 correspondence groups"]
 ASSUMPTIONS = ["attacker-sized allocations above the harness cap (1 GiB) are ordinary errors (err:alloc)"]
 
